@@ -822,6 +822,9 @@ class SubscriptedMappingUnmarshaller(
         """
         # Always decode bytes.
         decoded = serdes.load(val)
+        # Text which is no document of a mapping is not one: its characters are no members.
+        if inspection.istexttype(decoded.__class__):
+            raise TypeError(f"{val!r} is text, not a {self.t!r}")
         keys = self.keys
         values = self.values
         return self.origin(  # type: ignore[call-arg]
@@ -879,6 +882,10 @@ class SubscriptedIterableUnmarshaller(
         """
         # Always decode bytes.
         decoded = serdes.load(val)
+        # Text which is no document of a collection is not one: its characters are no members
+        #   (a one-character string is its own only element).
+        if inspection.istexttype(decoded.__class__):
+            raise TypeError(f"{val!r} is text, not a {self.t!r}")
         values = self.values
         return self.origin((values(v) for v in serdes.itervalues(decoded)))  # type: ignore[call-arg]
 
@@ -932,6 +939,9 @@ class SubscriptedIteratorUnmarshaller(
         """
         # Always decode bytes.
         decoded = serdes.load(val)
+        # (Text which is no document of a collection is not one.)
+        if inspection.istexttype(decoded.__class__):
+            raise TypeError(f"{val!r} is text, not a {self.t!r}")
         values = self.values
         it: IteratorT = (values(v) for v in serdes.itervalues(decoded))  # type: ignore[assignment]
         return it
